@@ -117,6 +117,11 @@ func runAllocs(out *bufio.Writer, st *Stats, r *Rng, tier string) {
 				win := b.Slice(0, b.Capacity()).Slice(1, 2) // a window with spare capacity inside b
 				empty := Alloc(k, false, signal.Allocator{Channels: ch, Length: 0, Capacity: 0})
 				measure(out, st, "appendInPlace", det+"/window-empty-src", func() { win.Append(empty) })
+				// source and destination are disjoint windows of the same parent buffer
+				parent := Alloc(k, false, signal.Allocator{Channels: ch, Length: 2*allocRuns + 60, Capacity: 2*allocRuns + 60})
+				dstW := parent.Slice(0, 1)
+				srcW := parent.Slice(2*allocRuns+50, 2*allocRuns+51)
+				measure(out, st, "appendInPlace", det+"/same-parent", func() { dstW.Append(srcW) })
 				win2 := b.Slice(0, b.Capacity()).Slice(1, 2) // spare capacity for allocRuns+1 more frames
 				measure(out, st, "appendInPlace", det+"/window", func() { win2.Append(one) })
 				// pool get/put cycle
